@@ -183,7 +183,7 @@ func TestVerif_C10_AEAD(t *testing.T) {
 
 func TestVerif_C10_SumAndBlock(t *testing.T) {
 	rec := stats.Get("C10", "sum-block")
-	rec.Rule("rapid: sm3 Sum(dst) with dst from {nil, empty, len=cap, spare room, exact room} after a message of 0..200 bytes: result = dst || sm3ref digest, message buffer unchanged, second Sum equal; sm4 Block Encrypt/Decrypt: key and src unchanged, repeated call equal, BlockMode-style chained use on one buffer. Non-trivial: dst with spare capacity or a repeated call; distinct by (message, dst class).")
+	rec.Rule("rapid: sm3 Sum(dst) with dst from {nil, empty, len=cap, spare room, exact room} after a message of 0..200 bytes: result = dst || sm3ref digest, message buffer unchanged, second Sum equal, results stay intact when the caller scribbles on them and uses the hasher further (no memory shared with the hasher); sm4 Block Encrypt/Decrypt: key and src unchanged, repeated call equal, BlockMode-style chained use on one buffer. Non-trivial: dst with spare capacity or a repeated call; distinct by (message, dst class).")
 	t.Cleanup(stats.FlushAll)
 	rapid.Check(t, func(t *rapid.T) {
 		r := gen.Rand(t, "seed")
@@ -207,8 +207,30 @@ func TestVerif_C10_SumAndBlock(t *testing.T) {
 		if !bytes.Equal(msg, msnap) {
 			vt.Fail(t, rec, "C10:sum:modifies-input", "Write/Sum modified the message buffer")
 		}
-		if out2 := h.Sum(nil); !bytes.Equal(out2, want[:]) {
+		out2 := h.Sum(nil)
+		if !bytes.Equal(out2, want[:]) {
 			vt.Fail(t, rec, "C10:sum:repeat", "second Sum differs")
+		}
+		// the appended result belongs to the caller: it is scribbled on, the hasher is used further, and neither may notice
+		// (an earlier result must stay what it was, a later Sum must not see the scribbling)
+		for i := range out2 {
+			out2[i] ^= 0xa5
+		}
+		keep := h.Sum(nil)
+		if !bytes.Equal(keep, want[:]) {
+			vt.Fail(t, rec, "C10:sum:result-aliases-state", "a Sum after the caller modified the previous result differs: the returned slice shares memory with the hasher")
+			return
+		}
+		more := gen.RandBytes(r, gen.Uniform(t, "more", 1, 80))
+		h.Write(more)
+		want2 := sm3ref.Sum(append(append([]byte(nil), msg...), more...))
+		if later := h.Sum(nil); !bytes.Equal(later, want2[:]) {
+			vt.Fail(t, rec, "C10:sum:repeat", "Sum after a further Write differs from the reference")
+			return
+		}
+		if !bytes.Equal(keep, want[:]) || !bytes.Equal(out, append(append([]byte(nil), prefix...), want[:]...)) {
+			vt.Fail(t, rec, "C10:sum:result-overwritten", "a digest returned earlier changed when the hasher was used again: the result shares memory with the hasher")
+			return
 		}
 		// block cipher: inputs untouched
 		key := gen.RandBytes(r, 16)
